@@ -107,6 +107,7 @@ def run(ctx):
     ctx.log("generated %d applicable (configuration, failure point, callback) cases, running %d (%d gate family, %d failure points)" % (
         len(allc), len(cases), ngate, len({(c["fail"], c["idx"]) for c in cases})))
     ctx.cov["gate_family_cases"] = ngate
+    ctx.cov["launcher_death_cases"] = sum(1 for c in cases if c["crash"])
 
     # ---- 3. real runs
     res = {}
@@ -128,7 +129,7 @@ def run(ctx):
     ct = threading.Thread(target=do_cont)
     ct.start()
     obs, _ = lc.run_chunks(ctx, "c07", cases, "plain", par=4, timeout=ctx.pick(300, 1500))
-    st_pool = [c for c in cases if not c["opt"]["ptrace"] and not (c["opt"]["stop"] and c["opt"]["sync"]) and c["fail"] not in ("keepcaps", "dropA_secbits")]
+    st_pool = [c for c in cases if not c["crash"] and not c["opt"]["ptrace"] and not (c["opt"]["stop"] and c["opt"]["sync"]) and c["fail"] not in ("keepcaps", "dropA_secbits")]
     rng.shuffle(st_pool)
     st_cases = []
     for i, c in enumerate(st_pool[:ctx.pick(32, 150)]):
@@ -175,7 +176,8 @@ def run(ctx):
         for b in ctx.read_ndjson(os.path.join(j.dir, fn)):
             o = src[b["i"] - 1]
             if kind == "forkexec":
-                where = "fail=%s[%d] cb=%s [%s]" % (o["fail"], o["idx"], o["cb"], " ".join(lc.opt_on(o["opt"])))
+                where = "fail=%s[%d] cb=%s%s [%s]" % (o["fail"], o["idx"], o["cb"], (" launcher-death=" + o["crash"]) if o["crash"] else "",
+                                                     " ".join(lc.opt_on(o["opt"])))
                 key = "%s:%s:%s" % (b["what"], o["fail"], b["sig"])
                 case = slim(o)
             else:
@@ -227,6 +229,7 @@ def run(ctx):
         "steps with no real failing input (close, getpid, setsid, capset, no_new_privs, ptrace_me, stop, second/third securebits site, umount/unlink of the pivot block) are covered by the model only",
         "with StopBeforeSeccomp or ptrace+seccomp Start returns before exec by design: 'names the failing step' is judged only for errors Start returns (LaunchSteps!Reported), 'never runs' on the marker and the child's end",
         "the callback sleeps 15 ms before looking: a child that is really blocked stays blocked, one that was let go has exec'd by then",
+        "launcher death: a helper launcher process exits / is SIGKILLed inside its SyncFunc; the orphaned child is given up to 1.5 s (it needs < 5 ms either way), then everything whose command line carries the case's nonce is killed",
         "container: the marker is looked up through Environment.Open, children through /proc/<init>/task/*/children",
     ]
     return dict(evaluations=len(allobs) + len(cobs) + len(traces), distinct=ctx.cov["failing_launches"] + len(cobs),
@@ -236,5 +239,5 @@ def run(ctx):
 
 def slim(o):
     return {"id": o["id"], "opt_on": lc.opt_on(o["opt"]), "fail": o["fail"], "idx": o["idx"], "cb": o["cb"], "started": o["started"],
-            "err": o["err"], "marker": o["marker"], "wait": o["wait"], "kids": o["kids"], "exit": o["exit"], "report": o["report"],
+            "err": o["err"], "marker": o["marker"], "crash": o["crash"], "orphan": o["orphan"], "wait": o["wait"], "kids": o["kids"], "exit": o["exit"], "report": o["report"],
             "cbobs": o["cbobs"], "hostpid": o["hostpid"], "dpid": o["dpid"]}
